@@ -86,3 +86,7 @@ package stream
 // request id of the ACK (the channel hand-off itself is not modelled by the verifier).
 
 //@ fieldwritesonly[C03] StreamOpenResult.RemoteEphemeral: (*Manager).HandleStreamOpenAck
+
+// C04: a session key is never wiped while tunnel code of this package may still seal data with it (a wiped key is
+// all-zero, i.e. known to every transit): no function of this package zeroes a session key.
+//@ census[C04] crypto.(*SessionKey).Zero in -
